@@ -2,6 +2,7 @@ import TongoModel.Message
 import TongoProofs.Lemmas.Message
 import TongoProofs.Lemmas.MessageHash
 import TongoProofs.Lemmas.MessageTlb
+import TongoProofs.Lemmas.MessageHeap
 import TongoProofs.C01
 import TongoProofs.C02
 import TongoProofs.C04
@@ -13,10 +14,122 @@ open Tongo Tongo.Message Tongo.Json
 
 variable (H : List UInt8 → List UInt8)
 
-/-- The hash reported by a decoded message is the representation hash of the WHOLE cell it was decoded from: it is
-captured before any field is read and does not depend on the fields, on where the read cursors stood, nor on the
-position of the cell inside an enclosing record (only the referenced cell is hashed). -/
-theorem msg_hash_is_cell_hash (c : Cell) (m : Message) (h : unmarshalMessage H c = .ok m) :
+/-! ## mutable cells: read cursors, the hasher's memo table, enclosing records
+
+The model of TongoModel/MessageHeap.lean: pointers to cells WITH read cursors (`bitCur`, `refCur`), `Cell.NextRef`
+rewinding the child in place, `Cell.ResetCounters`, and a decoder that carries either no hasher (`c.Hash()`, fresh memo
+table) or a `boc.Hasher` whose memo table persists (`Memo.hashMemo`, C02). `Dec.Valid` = the hasher's table satisfies
+C02's `CacheInv` (every entry is the value for the tree its pointer denotes): true of a new hasher and preserved by
+every call (`Memo.memo_agrees`). -/
+
+/-- **Message.UnmarshalTLB on a mutable cell.** For a cell in ANY cursor state (partly read by an enclosing decoder,
+left over from an earlier decode, its descendants likewise) and a decoder with ANY valid hasher table or none: the
+outcome — reported hash and fields, or the error — is `Cell.Hash` of the tree the pointer denotes, followed by the
+field decode from the FIRST bit and FIRST reference of the cell. The right-hand side mentions neither a cursor nor
+the hasher: the hash is that of the whole source cell, taken before the fields are read, and the counters are reset
+in between. -/
+theorem msg_hash_is_cell_hash (fuel : Nat) (d : Dec) (p : Nat) (c : Cell) (mc : MsgCell)
+    (hv : d.Valid H) (ht : Memo.tree d.heap.rows fuel p = some c) (hp : d.heap p = some mc) :
+    outFst (unmarshalMessageH H fuel d p) =
+      (c.reprHash H).bind fun h =>
+        (decodeMsg (rowStore d.heap.rows) ⟨mc.row.bits, mc.row.refs⟩).bind fun m => .ok ⟨h, m⟩ :=
+  unmarshalMessageH_eq H fuel d p c mc hv ht hp
+
+/-- **Independent of the cursors and of the hasher.** Two decoders over the same cells (same rows) — one with the cell
+and all its descendants in any cursor state and a hasher carrying any valid memo table, the other rewound and
+without hasher — report the same hash and fields (or the same error). A consequence of cache soundness (C02), not an
+assumption. -/
+theorem msg_hash_hasher_and_cursor_independent (fuel : Nat) (d1 d2 : Dec) (p : Nat) (c : Cell) (mc1 mc2 : MsgCell)
+    (hrows : d1.heap.rows = d2.heap.rows) (hv1 : d1.Valid H) (hv2 : d2.Valid H)
+    (ht : Memo.tree d1.heap.rows fuel p = some c) (hp1 : d1.heap p = some mc1) (hp2 : d2.heap p = some mc2) :
+    outFst (unmarshalMessageH H fuel d1 p) = outFst (unmarshalMessageH H fuel d2 p) := by
+  have hrow : mc1.row = mc2.row := by
+    have h1 : d1.heap.rows p = some mc1.row := by simp [MHeap.rows, hp1]
+    have h2 : d2.heap.rows p = some mc2.row := by simp [MHeap.rows, hp2]
+    rw [hrows, h2] at h1
+    injection h1 with h1
+    exact h1.symm
+  rw [unmarshalMessageH_eq H fuel d1 p c mc1 hv1 ht hp1,
+    unmarshalMessageH_eq H fuel d2 p c mc2 hv2 (by rw [← hrows]; exact ht) hp2, hrows, hrow]
+
+/-- a new hasher (`tlb.NewDecoder()`) and no hasher (`tlb.Unmarshal`) are valid decoder states for any heap -/
+theorem new_decoders_valid (heap : MHeap) : (⟨heap, none⟩ : Dec).Valid H ∧ (⟨heap, some []⟩ : Dec).Valid H := by
+  constructor
+  · intro cache h; cases h
+  · intro cache h
+    injection h with h
+    subst h
+    intro p i hl
+    simp at hl
+
+/-- the hypotheses are satisfiable on a non-trivial state (a test on one literal, identity as "hash"): a two-cell
+heap whose message cell has BOTH cursors moved and whose child is partly read; the decode succeeds -/
+example :
+    let child : MsgCell := ⟨⟨0, 0, [true, false, true], []⟩, 2, 0⟩
+    let msg : MsgCell := ⟨⟨0, 0, [true, false, false, false, false, false, false, false, false, false, false, true], [1]⟩, 7, 1⟩
+    let heap : MHeap := fun q => if q = 0 then some msg else if q = 1 then some child else none
+    (outFst (unmarshalMessageH (fun x => x) 5 ⟨heap, some []⟩ 0)).isOk = true ∧
+    (Memo.tree heap.rows 5 0).isSome = true := by
+  decide +kernel
+
+/-- **An enclosing record.** A record whose next `k` fields are `^Message` / `Ref[Message]`, decoded from its cell in
+any cursor state with any valid hasher table: the i-th reported message carries the representation hash of the tree
+denoted by ITS reference (the `refCur + i`-th reference slot of the record's cell) and the fields decoded from the
+start of that cell — whatever the record is, wherever it sits, whatever was decoded before (the memo table may
+already hold any of the cells), also when two slots hold the same cell. -/
+theorem enclosing_record_message_hashes (fuel : Nat) (k : Nat) (d : Dec) (parent : Nat) (c : Cell) (mc : MsgCell)
+    (hv : d.Valid H) (ht : Memo.tree d.heap.rows (fuel + 1) parent = some c) (hp : d.heap parent = some mc)
+    (ms : List MessageH) (d' : Dec) (e : decodeRefMessages H fuel k d parent = .ok (ms, d')) :
+    ms.length = k ∧ d'.Valid H ∧
+    ∀ i, i < k → ∃ r m, mc.row.refs[mc.refCur + i]? = some r ∧ ms[i]? = some m ∧ ChildOK H d.heap.rows fuel r m := by
+  obtain ⟨h1, _, h3, h4⟩ := decodeRefMessages_spec H fuel d.heap.rows parent c ht k d mc ms d' rfl hv hp e
+  exact ⟨h1, h3, h4⟩
+
+/-- **Transaction.UnmarshalTLB on a mutable cell**: for any cursor state and any valid hasher table the captured hash is
+`Cell.Hash` of the tree the pointer denotes, and the pointer kept for the lazy source BOC is that cell -/
+theorem tx_hash_is_cell_hash (fuel : Nat) (d : Dec) (p : Nat) (c : Cell)
+    (hv : d.Valid H) (ht : Memo.tree d.heap.rows fuel p = some c) :
+    outFst (captureTxH H fuel d p) = (c.reprHash H).bind fun h => .ok ⟨h, p⟩ :=
+  captureTxH_eq H fuel d p c hv ht
+
+/-- the same inside an enclosing record with `^Transaction` fields -/
+theorem enclosing_record_tx_hashes (fuel : Nat) (k : Nat) (d : Dec) (parent : Nat) (c : Cell) (mc : MsgCell)
+    (hv : d.Valid H) (ht : Memo.tree d.heap.rows (fuel + 1) parent = some c) (hp : d.heap parent = some mc)
+    (ts : List TxCaptureH) (d' : Dec) (e : decodeRefTxs H fuel k d parent = .ok (ts, d')) :
+    ts.length = k ∧ d'.Valid H ∧
+    ∀ i, i < k → ∃ r t, mc.row.refs[mc.refCur + i]? = some r ∧ ts[i]? = some t ∧ TxChildOK H d.heap.rows fuel r t := by
+  obtain ⟨h1, _, h3, h4⟩ := decodeRefTxs_spec H fuel d.heap.rows parent c ht k d mc ts d' rfl hv hp e
+  exact ⟨h1, h3, h4⟩
+
+/-- the lazy source BOC is the serialisation of the tree the kept pointer denotes, whatever happened to the cursors of
+any cell since the capture (`later` has the same rows) -/
+theorem source_boc_of_mutable_cell {β} (serialize : Cell → Outcome β) (fuel : Nat) (d : Dec) (p : Nat) (c : Cell)
+    (hv : d.Valid H) (ht : Memo.tree d.heap.rows fuel p = some c)
+    (t : TxCaptureH) (d' : Dec) (e : captureTxH H fuel d p = .ok (t, d'))
+    (later : Dec) (hlater : later.heap.rows = d.heap.rows) :
+    outFst (t.sourceBoc serialize fuel later) = serialize c ∧ c.reprHash H = .ok t.hash := by
+  have heq := captureTxH_eq H fuel d p c hv ht
+  rw [outFst_ok _ t d' e] at heq
+  cases hh : c.reprHash H with
+  | ok x =>
+    rw [hh] at heq
+    simp only [Outcome.bind] at heq
+    injection heq with heq
+    subst heq
+    refine ⟨?_, rfl⟩
+    simp only [TxCaptureH.sourceBoc, hlater, ht]
+    cases serialize c <;> rfl
+  | err x => rw [hh] at heq; cases heq
+  | panic x => rw [hh] at heq; cases heq
+
+/-! ## tree level
+
+`unmarshalMessage` / `captureTx` are the same functions on IMMUTABLE trees (no cursors, no hasher): the three statements
+below only unfold them (true by construction). They are the link between the statements on mutable cells above and
+the layout theorems below, which speak about trees. -/
+
+/-- (by construction) at tree level the reported hash is `Cell.reprHash` of the decoded cell -/
+theorem msg_hash_tree_level (c : Cell) (m : Message) (h : unmarshalMessage H c = .ok m) :
     c.reprHash H = .ok m.hash := by
   unfold unmarshalMessage at h
   cases hh : c.reprHash H with
@@ -30,8 +143,8 @@ theorem msg_hash_is_cell_hash (c : Cell) (m : Message) (h : unmarshalMessage H c
   | err e => rw [hh] at h; cases h
   | panic e => rw [hh] at h; cases h
 
-/-- the decoded fields are those of the cell read from its first bit and first reference (counters reset) -/
-theorem msg_fields_from_start (c : Cell) (m : Message) (h : unmarshalMessage H c = .ok m) :
+/-- (by construction) at tree level the fields are decoded from the first bit and first reference -/
+theorem msg_fields_tree_level (c : Cell) (m : Message) (h : unmarshalMessage H c = .ok m) :
     decodeMsg treeStore ⟨c.bits, c.refs⟩ = .ok m.msg := by
   unfold unmarshalMessage at h
   cases hh : c.reprHash H with
@@ -45,18 +158,8 @@ theorem msg_fields_from_start (c : Cell) (m : Message) (h : unmarshalMessage H c
   | err e => rw [hh] at h; cases h
   | panic e => rw [hh] at h; cases h
 
-/-- a caching hasher (boc.Hasher) that is sound — every cached entry is the representation hash of its cell, C02
-`cache_sound` — reports the same hash as the plain computation -/
-theorem msg_hash_hasher_independent (cache : Cell → Option (List UInt8))
-    (hsound : ∀ c h, cache c = some h → c.reprHash H = .ok h) (c : Cell) :
-    (match cache c with | some h => Outcome.ok h | none => c.reprHash H) = c.reprHash H := by
-  cases hc : cache c with
-  | none => rfl
-  | some h => exact (hsound c h hc).symm
-
-/-- The hash reported by a decoded transaction is the representation hash of its source cell, and the cell kept for
-the lazy source BOC is that same cell. -/
-theorem tx_hash_is_cell_hash (c : Cell) (t : TxCapture) (h : captureTx H c = .ok t) :
+/-- (by construction) at tree level the captured hash is `Cell.reprHash` of the source cell, which is the cell kept -/
+theorem tx_capture_tree_level (c : Cell) (t : TxCapture) (h : captureTx H c = .ok t) :
     c.reprHash H = .ok t.hash ∧ t.source = c := by
   unfold captureTx at h
   cases hh : c.reprHash H with
@@ -64,7 +167,7 @@ theorem tx_hash_is_cell_hash (c : Cell) (t : TxCapture) (h : captureTx H c = .ok
   | err e => rw [hh] at h; cases h
   | panic e => rw [hh] at h; cases h
 
-/-- internal and external-out messages: the normalised hash is the plain hash -/
+/-- (by construction) internal and external-out messages: the normalised hash is the plain hash -/
 theorem non_extin_unchanged (m : Message) (h : m.msg.info.isExtIn = false) :
     m.hashOf H true = m.hashOf H false := by
   unfold Message.hashOf
@@ -73,7 +176,7 @@ theorem non_extin_unchanged (m : Message) (h : m.msg.info.isExtIn = false) :
   | extOut => rfl
   | extIn s d f => rw [hi] at h; cases h
 
-/-- what the normalised hash of an external-in message is: the representation hash of the canonical cell built from
+/-- (by construction) what the normalised hash of an external-in message is: the representation hash of the canonical cell built from
 the destination (a standard destination without its anycast) and the body -/
 theorem norm_hash_def (m : Message) (src dest : MsgAddr) (fee : Nat) (hi : m.msg.info = .extIn src dest fee) :
     m.hashOf H true = (normCell dest (bodyCell m.msg)).reprHash H := by
@@ -108,8 +211,8 @@ theorem norm_ignores_src_fee_init_placement (p1 p2 : ExtInParts) (c1 c2 : Cell) 
     (u1 : unmarshalMessage H c1 = .ok m1) (u2 : unmarshalMessage H c2 = .ok m2)
     (hd : normDest p1.dest = normDest p2.dest) (hb : p1.bodyValue = p2.bodyValue) :
     m1.hashOf H true = m2.hashOf H true := by
-  have f1 := msg_fields_from_start H c1 m1 u1
-  have f2 := msg_fields_from_start H c2 m2 u2
+  have f1 := msg_fields_tree_level H c1 m1 u1
+  have f2 := msg_fields_tree_level H c2 m2 u2
   have hc1 := encodeExtIn_cell p1 c1 e1
   have hc2 := encodeExtIn_cell p2 c2 e2
   rw [hc1] at f1
@@ -134,12 +237,12 @@ theorem msg_roundtrip_all_kinds (p : MsgParts) (w : MsgPartsWF p) (c : Cell) (e 
     (m : Message) (u : unmarshalMessage H c = .ok m) :
     c.reprHash H = .ok m.hash ∧ m.msg.info = p.info ∧ bodyCell m.msg = p.bodyValue ∧
       m.msg.bodyIsRef = (p.bodyForm == .ref) := by
-  have f := msg_fields_from_start H c m u
+  have f := msg_fields_tree_level H c m u
   rw [encodeMsg_cell p c e] at f
   simp only [Cell.ordinary, Cell.bits, Cell.refs] at f
   rw [decodeMsg_encodeMsgRaw p w] at f
   injection f with f
-  refine ⟨msg_hash_is_cell_hash H c m u, ?_, ?_, ?_⟩ <;> rw [← f] <;> rfl
+  refine ⟨msg_hash_tree_level H c m u, ?_, ?_, ?_⟩ <;> rw [← f] <;> rfl
 
 /-- **The hand-written layout is the block.tlb layout.** For every message of any kind whose parts lie in the domain
 of the transcribed schema (C04's SPEC `Tlb.Spec.Message`: anycast depth ≤ 30, no extra currencies, empty state-init
@@ -252,25 +355,35 @@ example :
     normDest (.std none 0 (List.replicate 32 0)) ≠ normDest (.std none 1 (List.replicate 32 0)) := by
   refine ⟨by decide +kernel, by decide +kernel, by decide⟩
 
-/-- **The source BOC parses back to the source cell with the reported hash** — through C01 `roundtrip` (the model of
-the repaired Go reader applied to what `serializeBoc` writes, all header arithmetic included).
-`SourceBoc()` serialises the captured cell with idx = crc = cacheBits = false. The ONE premise that remains is the
-one C01 itself leaves open (`C01.order_valid`, checked per input by the verified reader, not proved): the order
-`(t, roots)` computed by importCell/reorderCells/revisit for the source cell is a valid layout that unfolds to that
-cell (`hv`, `horder`). `hn`/`hlen` are the size limits of the format (fewer than 2²⁴ cells, a Go slice). -/
-theorem source_boc_roundtrip (c : Cell) (tx : TxCapture) (h : captureTx H c = .ok tx)
-    (t : Table) (root : Nat) (hv : Boc.ValidLayout t [root])
-    (horder : Table.unfold t (t.size + 1) root = some tx.source)
-    (hn : t.size < 16777216)
-    (hlen : (Boc.Writer.serializeOrdered t [root] false false false []).length < Boc.two63) :
-    Boc.parseBoc (Boc.Writer.serializeOrdered t [root] false false false []) = .ok (t, [root]) ∧
-      Table.unfold t (t.size + 1) root = some c ∧ c.reprHash H = .ok tx.hash ∧
-      (Table.infos H t)[root]? = some (Cell.info H c) := by
-  obtain ⟨hh, hs⟩ := tx_hash_is_cell_hash H c tx h
-  have hroot : root < t.size := hv.1.2.1 root (by simp)
-  refine ⟨C01.roundtrip t [root] false false false [] hv hn (by simp) (by simp; omega) hlen, ?_, hh, ?_⟩
-  · rw [horder, hs]
-  · exact C02.table_refines_tree H t (t.size + 1) root c (by rw [horder, hs])
+/-- **The source BOC parses back to the source cell with the reported hash** — through C01 `roundtrip_go_writer`: the
+whole Go writer (the order computed by importCell/reorderCells/revisit, proved valid by C01 `order_valid`, then the
+header arithmetic of serializeBoc) applied to the source cell with idx = crc = cacheBits = false, read back by the
+model of the Go reader. The source is given as any table `(t, root)` in a valid layout that unfolds to the captured
+cell. Premises: `hk` — the de-duplication key of the writer (the hex representation hash) identifies the sub-cells,
+i.e. no hash collision among the cells of this one source; the size limits of the format (fewer than 2²⁴ cells, the
+output is a Go slice). -/
+theorem source_boc_roundtrip {K : Type} [BEq K] [Hashable K] [LawfulBEq K]
+    (c : Cell) (tx : TxCapture) (h : captureTx H c = .ok tx)
+    (t : Table) (root : Nat) (key : Nat → Option K) (hv : Boc.ValidLayout t [root]) (hk : Boc.Order.KeyInjOn t key)
+    (hsrc : Table.unfold t (t.size + 1) root = some tx.source) :
+    ∃ (o : Boc.Order.Ordered) (bs : Boc.Bytes), Boc.Order.serializeBocModel t key [root] false false false = .ok bs ∧
+      (o.table.size < 16777216 → bs.length < Boc.two63 → Boc.parseBoc bs = .ok (o.table, o.roots)) ∧
+      o.roots.map (Table.unfold o.table (o.table.size + 1)) = [some c] ∧ c.reprHash H = .ok tx.hash := by
+  obtain ⟨hh, hs⟩ := tx_capture_tree_level H c tx h
+  obtain ⟨o, bs, _, hser, hval, hparse⟩ := C01.roundtrip_go_writer t [root] key false false false hv hk
+  have hroots : o.roots.map (Table.unfold o.table (o.table.size + 1)) = [some c] := by
+    rw [hval.roots_eq]; simp [hsrc, hs]
+  have hlen : o.roots.length = 1 := by
+    have := congrArg List.length hroots
+    simpa using this
+  have hsize : 1 ≤ o.table.size := by
+    match ho : o.roots, hlen with
+    | [r], _ =>
+      have := hval.valid.1.2.1 r (by rw [ho]; simp)
+      omega
+  refine ⟨o, bs, hser, ?_, hroots, hh⟩
+  intro hn hl
+  exact hparse hn (by simp) (by simpa using hsize) hl
 
 /-- **SourceBoc and Hash track the last decode.** One Transaction variable, reused for any sequence of decodes with
 `SourceBoc()` and `Hash()` calls interleaved in any order, starting from any state: afterwards `Hash()` is the
